@@ -135,7 +135,10 @@ impl Scenario for ReplyScenario {
         };
         let nt = rng.range(1, 3) as usize;
         let sparse = rng.chance(1, 4);
-        cfg.points = gen_points(rng, nt, 3, sparse, false);
+        // now and then a database large enough for READ responses of several fragments ("each transmitted fragment fits the
+        // configured transmit size and parses cleanly" includes the later fragments and their echoes)
+        let large = rng.chance(1, 5);
+        cfg.points = gen_points(rng, nt, if large { 60 } else { 3 }, sparse, false);
         let mut clock = 3_000_000u64;
         let mut script = Vec::new();
         if cfg.unsolicited && rng.chance(2, 3) {
@@ -178,6 +181,18 @@ impl Scenario for ReplyScenario {
                     since_last_tx: true,
                 }),
                 _ => {}
+            }
+            if large && rng.chance(1, 3) {
+                // a class 0 poll answered in several fragments; the master confirms some of them and then sends the READ again
+                // while a later fragment awaits its confirmation: what comes back is an echo of that fragment
+                script.push(read_op(vec![class_header(0, None)]));
+                for _ in 0..rng.urange(0, 3) {
+                    script.push(Op::Confirm { uns: false, seq: ConfSel::Expected, from: Who::Master });
+                }
+                script.push(Op::Repeat);
+                if rng.bool() {
+                    script.push(Op::Confirm { uns: false, seq: ConfSel::Expected, from: Who::Master });
+                }
             }
             script.push(gen_request(rng, &cfg.points, cfg.rx));
             if cfg.unsolicited && rng.chance(1, 6) {
